@@ -29,7 +29,9 @@
 (***************************************************************************)
 EXTENDS TranscriptCore, Json, IOUtils, Functions, SequencesExt
 
-CONSTANTS Mutants, ConfigSet     \* Mutants: set of sets of disabled classes; ConfigSet: "lattice" | "env" | "one"
+CONSTANTS Mutants, ConfigSet, EncodeMutant
+\* Mutants: set of sets of disabled classes; ConfigSet: "lattice" | "quick" | "env" | "one";
+\* EncodeMutant: "none" | "drops_final_bits" (the strategy encoding, see TranscriptCore)
 
 H == 4
 D == 2
@@ -48,7 +50,12 @@ Configs == IF ConfigSet = "env" THEN {c : c \in Range(ndJsonDeserialize(IOEnv.CF
            ELSE IF ConfigSet = "one" THEN {OneConfig}
            ELSE IF ConfigSet = "quick" THEN LatticeQuick ELSE Lattice
 
-StratLen(cfg) == IF cfg.strat = "fixed" THEN 1 + cfg.narity ELSE IF cfg.strat = "cab" THEN 3 ELSE 2
+\* what the code's serialisation absorbs / the atoms of the component (variant + every parameter)
+StratLen(cfg) == EncodeLen(cfg.strat, cfg.narity, EncodeMutant)
+StratAtoms(cfg) == StratParamCount(cfg.strat, cfg.narity)
+ASSUME EncodeInjective(EncodeMutant)
+ASSUME EncodeComplete(EncodeMutant)
+ASSUME KnownCollision
 CapLen(cfg) == cfg.capn * H
 Idx(n) == IF n < 10 THEN <<"0","1","2","3","4","5","6","7","8","9">>[n + 1] ELSE ToString(n)
 CommitCap(l) == "commit_cap." \o Idx(l)
@@ -120,6 +127,7 @@ Protocol(cfg) ==
 CountF(fs, cfg, class) ==
   LET S == {s \in Range(fs) : s.k = "O" /\ s.class = class /\ s.own}
   IN IF class = "degree_bits" THEN 1
+     ELSE IF class = "fri.reduction_strategy" THEN StratAtoms(cfg)
      ELSE IF S = {} THEN 0 ELSE (CHOOSE s \in S : TRUE).n
 Count(cfg, class) == CountF(FullSchedule(cfg), cfg, class)
 RoundOf(P, ch) == CHOOSE r \in 1..Len(P) : ch \in P[r].chs
